@@ -101,7 +101,7 @@ def cases_for_log(ctx, spec, budget):
         return rng.choice([DEFAULT_FLAGS, [1, 1, 0, 1, 1], [0, 1, 1, 1, 0], rng.choice(ALL_FLAGS)])
 
     def mk(**kw):
-        c = {'log': spec, 'flags': DEFAULT_FLAGS, 'max_bytes': None, 'srcs': None, 'types': None, 'range': None, 'late_srcs': None}
+        c = {'log': spec, 'flags': DEFAULT_FLAGS, 'max_bytes': None, 'srcs': None, 'types': None, 'types_form': None, 'range': None, 'late_srcs': None}
         c.update(kw)
         out.append(c)
     mk()
@@ -115,6 +115,13 @@ def cases_for_log(ctx, spec, budget):
         mk(types=ts, flags=rnd_flags())
         for r in rng.sample(rp, min(len(rp), max(1, budget // 40))):
             mk(types=ts, range=r, flags=rnd_flags())
+    # axis: type filters of every size (1 .. 40 requested types, most of them absent from the log, spread over the
+    # 16-bit range, with duplicates and in every container form), alone and with a range
+    if len(present_types) >= 2:
+        for ts, form in K.type_requests(rng, present_types):
+            mk(types=ts, types_form=form, flags=rnd_flags())
+            if rng.random() < 0.4:
+                mk(types=ts, types_form=form, range=rng.choice(rp), flags=rnd_flags())
     # axis: ranges alone and with sources
     for r in rp[:max(8, budget // 8)]:
         mk(range=r, flags=rnd_flags())
@@ -158,6 +165,8 @@ def gen_logs(ctx):
     for i in range(n_random):
         logs.append((K.random_log(rng, nmax=rng.choice([4, 8, 12])), 'random'))
     logs.append((K.late_source_log(rng), 'late-source'))
+    for n in ((16, 25, 40, 60) if ctx.thorough else (16, 25)):
+        logs.append((K.rich_log(rng, n), 'rich'))
     if ctx.thorough:
         for _ in range(10):
             logs.append((K.random_log(rng, nmax=30, nsrc=3), 'random'))
@@ -375,7 +384,7 @@ def time_oracle(c, rec):
 # ---------------------------------------------------------------------------------------------------------
 
 def shrink(ev, case, sig, rounds=12):
-    cur = {k: case[k] for k in ('log', 'flags', 'max_bytes', 'srcs', 'types', 'range', 'late_srcs')}
+    cur = {k: case.get(k) for k in ('log', 'flags', 'max_bytes', 'srcs', 'types', 'types_form', 'range', 'late_srcs')}
     for rnd in range(rounds):
         cands = []
         log = cur['log']
@@ -426,7 +435,7 @@ def describe(c, rec):
             'impl': rec['impl'].get('err') or rec['impl'].get('shadow'),
             'spec_offsets': [o for o, _ in rec['spec'][1]] if rec['spec'][0] == 'ok' else rec['spec'],
             'model': [o for o, _ in rec['model'][1]] if rec['model'][0] == 'ok' else rec['model'],
-            'case': {k: c[k] for k in ('log', 'flags', 'max_bytes', 'srcs', 'types', 'range', 'late_srcs')}}
+            'case': {k: c.get(k) for k in ('log', 'flags', 'max_bytes', 'srcs', 'types', 'types_form', 'range', 'late_srcs')}}
 
 
 def run(ctx):
@@ -470,6 +479,11 @@ def run(ctx):
         mb_cases.append({'log': big, 'flags': [0, 0, 0, 1, 1], 'max_bytes': mb, 'srcs': None, 'types': None, 'range': None, 'late_srcs': None, 'origin': 'big'})
     mb_cases.append({'log': big, 'flags': [0, 0, 0, 1, 1], 'max_bytes': 81930, 'srcs': [1], 'types': [K.POSE], 'late_srcs': None, 'origin': 'big',
                      'range': {'start': 80, 'end': 400, 'abs': False, 't0': None, 'ts': False}})
+    # a log of more than 1000 messages with all seven types: type filters of every size
+    rich_big = K.rich_log(ctx.rng, 1100 if not ctx.thorough else 2500)
+    for ts, form in K.type_requests(ctx.rng, K.ALL_TYPES, sizes=[1, 3, 6, 13, 20, 26, 27, 28, 30, 35, 40, 45] if not ctx.thorough else None):
+        mb_cases.append({'log': rich_big, 'flags': [0, 0, 0, 1, 1], 'max_bytes': None, 'srcs': None, 'types': ts, 'types_form': form, 'range': None,
+                         'late_srcs': None, 'origin': 'rich-big'})
     ctx.log('generated %d max_bytes cases' % len(mb_cases))
     recs.update(ev.run(mb_cases, 'mb'))
     cases += mb_cases
@@ -478,10 +492,12 @@ def run(ctx):
     for c in cases:
         rec = recs[c['id']]
         nm = len(rec['log']['msgs'])
-        key = (c['logkey'], json.dumps([c['flags'], c['max_bytes'], c['srcs'], c['types'], c['range'], c.get('late_srcs')]))
+        key = (c['logkey'], json.dumps([c['flags'], c['max_bytes'], c['srcs'], c['types'], c.get('types_form'), c['range'], c.get('late_srcs')]))
         ctx.case(key, nontrivial=nm > 0)
         ctx.count('log:' + c['origin'].split(':')[0])
         ctx.count('filters:' + features(c))
+        if c['types'] is not None:
+            ctx.count('types-requested:%s' % ('1-4' if len(c['types']) <= 4 else '5-12' if len(c['types']) <= 12 else '13-20' if len(c['types']) <= 20 else '21+'))
         ctx.count('flags:' + ''.join(str(int(x)) for x in c['flags']))
         if c['range'] is not None:
             rs = rec['impl'].get('range_state') or {}
@@ -518,7 +534,7 @@ def run(ctx):
     ctx.coverage['rule'] = ('logs: %d hand-written shapes + random logs of <= 12 (thorough: 30) messages with P1-timed / untimed / invalid-P1 messages of 7 types '
                             '(2 without a payload class), 1-3 source ids, junk (incl. bare sync bytes) between messages, one log with a source id first '
                             'seen after 12 messages of its type, one log > 80 KiB; per log: all 32 return_* combinations (with and without filters), all subsets '
-                            'of <= 4 present types (+ an absent type) x sampled ranges (absolute given or inferred, each end a float / Timestamp / invalid Timestamp / None in all mixtures, preset t0, open and closed, '
+                            'of <= 4 present types (+ an absent type) and type filters of 1 .. 40 requested types (mostly absent, spread over the 16-bit range, duplicates, set / list / tuple / payload classes) on logs with 7 present types incl. one of > 1000 messages, x sampled ranges (absolute given or inferred, each end a float / Timestamp / invalid Timestamp / None in all mixtures, preset t0, open and closed, '
                             'whole and fractional, before / inside / after the log), all subsets of present source ids (+ an absent one) through the constructor '
                             'and through filter_in_place, max_bytes at every message start / header end / message end +-1. A case is distinct by (log, options); '
                             'non-trivial when the log is not empty. Every case is run a second time with all return_* options on to identify the messages returned; yielded pieces are compared both inside the loop and after collecting all results (list(reader)), and header / payload objects must be distinct between results.') % len(K.fixed_logs())
